@@ -165,9 +165,27 @@ def run(ctx):
                     else:
                         verdict = verdict or ("passed to " + c2)
                 elif kind in ("discr", "switch"):
-                    # matched: the function must construct a *MemoryLimitExceeded error from it
-                    names = [st["rv"]["name"] for b in f.blocks for st in b["stmts"] if st["k"] == "assign" and st["rv"]["k"] == "agg"]
-                    if any(nm_.endswith("::MemoryLimitExceeded") for nm_ in names):
+                    # matched: on the Err edge of *this* match a *::MemoryLimitExceeded error must be built before returning
+                    sw_bi = None
+                    if kind == "switch":
+                        sw_bi = ubi
+                    else:
+                        dl2 = x["p"]["local"]
+                        for b2i, b2 in enumerate(f.blocks):
+                            t2 = b2["term"]
+                            if t2["k"] == "switch" and t2["d"]["k"] in ("copy", "move") and t2["d"]["p"]["local"] == dl2:
+                                sw_bi = b2i
+                    wrapped = False
+                    if sw_bi is not None:
+                        t2 = f.blocks[sw_bi]["term"]
+                        err_t = [y[1] for y in t2["ts"] if y[0] == 1]
+                        err_t = err_t[0] if err_t else t2["else"]
+                        ok_t = [y[1] for y in t2["ts"] if y[0] == 0]
+                        region = f.reachable_blocks(err_t) - (f.reachable_blocks(ok_t[0], avoid=[err_t]) if ok_t else set()) | {err_t}
+                        wrap_blocks = set(b2i for b2i, b2 in enumerate(f.blocks) for st2 in b2["stmts"] if st2["k"] == "assign" and st2["rv"]["k"] == "agg" and st2["rv"]["name"].endswith("::MemoryLimitExceeded"))
+                        rets = set(f.return_blocks())
+                        wrapped = bool(wrap_blocks) and (err_t in wrap_blocks or not f.can_reach_without(err_t, rets, wrap_blocks))
+                    if wrapped:
                         verdict = verdict or "matched and wrapped in MemoryLimitExceeded"
                     else:
                         verdict = verdict or "MATCHED-NOT-WRAPPED"
